@@ -21,7 +21,7 @@ def run(ctx):
     st = state["stats"]
     need = ["accepted", "rejected", "namespace_with_two_or_more_pools", "pool_with_three_or_more_bgp_advs",
             "sortedcopy_unsorted_input_3plus", "reconciler_runs"]
-    if cases and not ctx.replay_in and any(st.get(k, 0) == 0 for k in need):
+    if cases and not ctx.replay_in and not ctx.violations and not ctx.corr_broken and any(st.get(k, 0) == 0 for k in need):
         raise Exception("generator degenerate: %r" % st)
 
     def search():
